@@ -426,7 +426,9 @@ func (s *vHybSys) observe(h []string) {
 	}
 }
 
-func (s *vHybSys) Key() string {
+func (s *vHybSys) Key() string { return s.keyCanon() + "#deep" + vDeepHash(s.idx) }
+
+func (s *vHybSys) keyCanon() string {
 	var sb strings.Builder
 	hi := s.idx.(*hybridSearchIndex)
 	ids := make([]int, 0, len(hi.docInfo))
